@@ -70,7 +70,7 @@ fn main() {
     let unit = oid.split('/').next().unwrap_or("").to_string();
     let res: Option<Found> = match unit.as_str() {
         "lattice" => lattice::search(&pid, &oid, seed),
-        "resp_codec" => resp::search(&pid, &oid, seed),
+        "resp_codec" | "resp_spec" => resp::search(&pid, &oid, seed),
         "routing" | "fanout" => routing::search(&pid, &oid, seed),
         "digest" | "digest_state" => digest::search(&pid, &oid, seed),
         // wal_files = the multi-file half of the WAL (truncate_before, recover_all_entries, entries_after): same driver, rotator battery first
